@@ -168,7 +168,12 @@ def _check_roundtrip(k1, k2, v1, v2, w):
     return None
 
 
+FIXKEYS = hx.sel("VB_FIXKEYS", "0") == "1"     # 1: keys and the auxiliary value are fixed (only the two values are symbolic)
+
+
 def _rt_ok(k1, k2, v1, v2, w):
+    if FIXKEYS and not (k1 == KEYS[0] and k2 == KEYS[1] and w == W[0]):
+        return False
     return k1 in KEYS and k2 in KEYS and k1 != k2 and value_ok(v1) and value_ok(v2) and w in W and value_ok(w)
 
 
@@ -185,7 +190,7 @@ def reach_roundtrip(k1: str, k2: str, v1: str, v2: str, w: str) -> bool:
     pre: _rt_ok(k1, k2, v1, v2, w)
     post: not _
     """
-    return _check_roundtrip(hx.pick(k1, KEYS), hx.pick(k2, KEYS), v1, v2, hx.pick(w, W)) is None and k1 == "Parent" and v1 > "z"
+    return _check_roundtrip(hx.pick(k1, KEYS), hx.pick(k2, KEYS), v1, v2, hx.pick(w, W)) is None and (FIXKEYS or k1 == "Parent") and v1 > "z"
 
 
 def diag_roundtrip(k1, k2, v1, v2, w):
@@ -445,6 +450,8 @@ def _check_supplied(k1, k2, v1, v2, w, multi):
 
 
 def _sup_ok(k1, k2, v1, v2, w):
+    if FIXKEYS and not (k1 == KEYS8[1] and k2 == KEYS8[0] and w == W[0]):
+        return False
     return k1 in KEYS8 and k2 in KEYS8 and k1 != k2 and value8_ok(v1) and value8_ok(v2) and w in W and value8_ok(w)
 
 
@@ -461,7 +468,7 @@ def reach_supplied(k1: str, k2: str, v1: str, v2: str, w: str, multi: bool) -> b
     pre: _sup_ok(k1, k2, v1, v2, w)
     post: not _
     """
-    return _check_supplied(hx.pick(k1, KEYS8), hx.pick(k2, KEYS8), v1, v2, hx.pick(w, W), multi) is None and multi and k1 == "c-d"
+    return _check_supplied(hx.pick(k1, KEYS8), hx.pick(k2, KEYS8), v1, v2, hx.pick(w, W), multi) is None and multi and (FIXKEYS or k1 == "c-d")
 
 
 def diag_supplied(k1, k2, v1, v2, w, multi):
